@@ -145,6 +145,18 @@ def _check_raises(p, res, rname, entries, allowed, skip_guarded=True):
                     res.ok('%s: `%s` is dead: EXC-VISITOR shows every token class has a visitor' % (f.short, src_of(st)))
                     continue
             kind, name = raised_class(p, f, st)
+            if kind == 'reraise':
+                # a bare `raise` hands on what escaped from the protected region: that exception is judged where it is raised
+                res.ok('%s: bare raise (re-raises what escaped from its callees)' % f.short)
+                continue
+            if name in ('TypeError', ('TypeError',)):
+                # argument validation: a TypeError raised because a value is not of the documented type (`not isinstance(..)`)
+                # concerns inputs outside every property's domain (the properties quantify over strings and well-typed configurations)
+                from .. import shape
+                facts = shape.implied(st, shape.parent_map(f.node))
+                if any((not pol) and fs.startswith('isinstance(') for fs, pol in facts):
+                    res.ok('%s: TypeError for a value of the wrong type (outside the domain of the properties)' % f.short)
+                    continue
             names = name if isinstance(name, tuple) else (name,)
             bad = any(n not in allowed and not str(n).startswith('?') for n in names)
             if not bad and kind == 'unknown':
